@@ -339,6 +339,13 @@ func (t *fnTrans) resolveLoc(loc string, env *specEnv, pre *State) (l location, 
 					}
 				}
 				if len(l.heaps) == 0 {
+					// not seen yet: derive names and sorts from the type information
+					for _, hs := range t.eng.fieldHeapsByName(prefix) {
+						l.heaps = append(l.heaps, hs[0])
+						l.sorts = append(l.sorts, hs[1])
+					}
+				}
+				if len(l.heaps) == 0 {
 					l.heaps = append(l.heaps, prefix)
 					l.sorts = append(l.sorts, t.eng.heapSort[prefix])
 				}
@@ -379,6 +386,25 @@ func (t *fnTrans) resolveLoc(loc string, env *specEnv, pre *State) (l location, 
 			return l, true
 		}
 	case *ast.SelectorExpr:
+		// pkg.Var
+		if id, isId := n.X.(*ast.Ident); isId {
+			if _, isVar := env.vars[id.Name]; !isVar {
+				if _, isLv := env.lvs[id.Name]; !isLv {
+					if p := env.findPkg(id.Name); p != nil {
+						if o, ok := p.Scope().Lookup(n.Sel.Name).(*types.Var); ok {
+							ref := t.eng.globalRefObj(o)
+							if isStruct(o.Type()) {
+								l.kind = locField
+								l.ref = ref
+								t.collectStructHeaps(o.Type(), &l)
+								return l, true
+							}
+							return t.lvalLoc(&LVal{Kind: lvCell, Ref: ref, T: o.Type()}), true
+						}
+					}
+				}
+			}
+		}
 		// x.f
 		var base Val
 		if id, isId := n.X.(*ast.Ident); isId {
